@@ -44,9 +44,19 @@ pub fn tx_as_dyn_mut<'a, 'b>(x: &'a mut StorageTransaction<'b>) -> (r: &'a mut d
 //@   begin proof { axiom_vec_u8_key_laws(); lemma_lookup(self.local_state@, key); }
 //@ end
 //@ fn src/transactions.rs :: Storage for StorageTransaction :: range
-//@   drop_body
 //@   ret r
 //@   replace "Box<dyn Iterator<Item = Record> + 'b>" => "RecordIter<'b>"
+//@   ensures [C06.range.exact,C10,C08] is_range_of(recs_view(r.remaining()), self.view(), opt_view(start), opt_view(end), order)
+//@   replace "let local: Box<dyn Iterator<Item = BTreeMapPairRef<Delta>>> =" => "let local: DeltaIter<'b> ="
+//@   replace_re "Box::new\\((?P<E>iter::empty\\(\\)|local_raw(?:\\.rev\\(\\))?)\\)" => "DeltaIter::boxed(\\g<E>)"
+//@   replace_re? "local_raw\\.rev\\(\\)" => "vx_rev(local_raw)"
+//@   replace "Box::new(merged)" => "vx_box_merge(merged)"
+//@   replace_re? "if (?P<A>\\w+) > (?P<B>\\w+) =>" => "if *\\g<A> > *\\g<B> =>"
+//@   begin let ghost lo = opt_view(start); let ghost hi = opt_view(end); proof { axiom_vec_u8_cmp_lex(); }
+//@   after "let local_raw = self.local_state.range(bounds);" proof { axiom_brange_vec_u8(self.local_state@, bounds, local_raw.remaining()); lemma_brange_is_lrange(lview(local_raw.remaining()), self.local_state@, lo, hi); lemma_lrange_reverse(lview(local_raw.remaining()), self.local_state@, lo, hi); lemma_lview_reverse(local_raw.remaining()); }
+//@   before "DeltaIter::boxed(iter::empty())" proof { assert(lo is Some && hi is Some); assert(start@ == lo->0 && end@ == hi->0); lemma_lex_total(lo->0, hi->0); assert(lex_lt(hi->0, lo->0)); lemma_inverted_empty(self.local_state@, lo->0, hi->0, order); }
+//@   before "let base = self.storage.range(start, end, order);" proof { if local.remaining().len() == 0 { assert(lview(local.remaining()) =~= Seq::<LItem>::empty()); } assert(is_lrange_of(lview(local.remaining()), self.local_state@, lo, hi, order)); }
+//@   after "let merged = MergeOverlay::new(local, base, order);" proof { lemma_merge_is_range(merged.lrem(), merged.rrem(), self.storage.view(), self.local_state@, lo, hi, order); }
 //@ end
 //@ fn src/transactions.rs :: Storage for StorageTransaction :: set
 //@   ensures [C06.set.view,C10,C08,C02] final(self).view() == old(self).view().insert(key@, value@)
@@ -104,6 +114,44 @@ pub fn tx_as_dyn_mut<'a, 'b>(x: &'a mut StorageTransaction<'b>) -> (r: &'a mut d
 //@   attr #[verifier::reject_recursive_types(R)]
 //@ end
 pub open spec fn lview(s: Seq<(&Vec<u8>, &Delta)>) -> Seq<LItem> { Seq::new(s.len(), |i: int| (s[i].0@, dview(*s[i].1))) }
+pub proof fn lemma_lview_reverse(s: Seq<(&Vec<u8>, &Delta)>)
+    ensures lview(s.reverse()) == lview(s).reverse()
+{
+    assert(lview(s.reverse()) =~= lview(s).reverse());
+}
+// BTreeMap::range on the cache's delta map: exactly the entries within the bounds, ascending by the byte order of the keys   TRUSTED (std docs)
+pub axiom fn axiom_brange_vec_u8(m: Map<Vec<u8>, Delta>, range: (core::ops::Bound<Vec<u8>>, core::ops::Bound<Vec<u8>>), rem: Seq<(&Vec<u8>, &Delta)>)
+    ensures brange_ok(m, range, rem) ==> is_brange_of(lview(rem), m, bview(range.0), bview(range.1));
+
+// stand-in for Box<dyn Iterator<Item = (&Vec<u8>, &Delta)> + 'a>  (rule R7): an opaque iterator over the local deltas
+#[verifier::external_body]
+pub struct DeltaIter<'a> { inner: Box<dyn Iterator<Item = (&'a Vec<u8>, &'a Delta)> + 'a> }
+impl<'a> vstd::std_specs::iter::IteratorSpecImpl for DeltaIter<'a> {
+    open spec fn obeys_prophetic_iter_laws(&self) -> bool { true }
+    open spec fn remaining(&self) -> Seq<(&'a Vec<u8>, &'a Delta)> { self.rem() }
+    open spec fn will_return_none(&self) -> bool { true }
+    open spec fn decrease(&self) -> Option<nat> { Some(self.rem().len()) }
+    open spec fn peek(&self, i: int) -> Option<(&'a Vec<u8>, &'a Delta)> { if 0 <= i < self.rem().len() { Some(self.rem()[i]) } else { None } }
+}
+impl<'a> Iterator for DeltaIter<'a> {
+    type Item = (&'a Vec<u8>, &'a Delta);
+    #[verifier::external_body]
+    fn next(&mut self) -> (r: Option<(&'a Vec<u8>, &'a Delta)>) { self.inner.next() }
+}
+impl<'a> DeltaIter<'a> {
+    pub uninterp spec fn rem(&self) -> Seq<(&'a Vec<u8>, &'a Delta)>;
+    #[verifier::external_body]
+    pub fn boxed<I: Iterator<Item = (&'a Vec<u8>, &'a Delta)> + 'a>(i: I) -> (r: DeltaIter<'a>)
+        ensures r.remaining() == i.remaining()
+    { DeltaIter { inner: Box::new(i) } }
+}
+// boxing the merged iterator: the box forwards `next`, which is PROVED to yield the first element of rem() and leave
+// the rest (clause C06.merge.next_law); so the boxed iterator has rem() still to yield.   TRUSTED (forwarding only)
+#[verifier::external_body]
+pub fn vx_box_merge<'a, L, R>(m: MergeOverlay<'a, L, R>) -> (r: RecordIter<'a>)
+    where L: Iterator<Item = BTreeMapPairRef<'a, Delta>> + 'a, R: Iterator<Item = Record> + 'a
+    ensures recs_view(r.remaining()) == m.rem()
+{ unimplemented!() }
 // the iterator law: `r` is the first element of `pre` (None iff `pre` is empty) and `post` is what remains
 pub open spec fn pop_law(pre: Seq<RecV>, r: Option<Record>, post: Seq<RecV>) -> bool {
     match r { Some(x) => pre.len() > 0 && (x.0@, x.1@) == pre[0] && post == pre.drop_first(), None => pre.len() == 0 && post.len() == 0 }
@@ -159,3 +207,11 @@ pub proof fn lemma_recs_drop(s: Seq<Record>)
 //@   begin proof { if pk_rem(&self.left).len() > 0 { lemma_lview_drop(pk_rem(&self.left)); } if pk_rem(&self.right).len() > 0 { lemma_recs_drop(pk_rem(&self.right)); } }
 //@ end
 }
+
+//@ fn src/transactions.rs :: range_bounds
+//@   ret r
+//@   replace "-> impl RangeBounds<Vec<u8>>" => "-> (Bound<Vec<u8>>, Bound<Vec<u8>>)"
+//@   replace_re? "\\|x\\| Bound::Included\\(x\\.to_vec\\(\\)\\)" => "|x: &[u8]| -> (b: Bound<Vec<u8>>) ensures b matches Bound::Included(v) && v@ == x@ { Bound::Included(x.to_vec()) }"
+//@   replace_re? "\\|x\\| Bound::Excluded\\(x\\.to_vec\\(\\)\\)" => "|x: &[u8]| -> (b: Bound<Vec<u8>>) ensures b matches Bound::Excluded(v) && v@ == x@ { Bound::Excluded(x.to_vec()) }"
+//@   ensures [C06.range.bounds,C10,C08] bview(r.0) == lo_of(opt_view(start)) && bview(r.1) == hi_of(opt_view(end))
+//@ end
